@@ -6,3 +6,5 @@ import WowVerif.Props.C05
 #print axioms Wv.Total.discover_bounded
 #print axioms Wv.Total.boundedCapacity_le
 #print axioms Wv.Total.readVec_le
+#print axioms Wv.Total.mpq_accepted_header_bounds
+#print axioms Wv.Total.mpq_accepted_tables_inside
